@@ -141,6 +141,63 @@ class _NpProxy:
 _SETSHADOW = _OrderedSet()
 
 
+class _EnvSet:
+    """`set` shadow inside workload/jobs.py: a set whose iteration order is an environment choice when its elements are
+    hashed through a str (str themselves, or Job / Task objects whose __hash__ is the hash of their name): CPython salts
+    str hashes per process. Other elements keep insertion order."""
+
+    def __init__(self, it=()):
+        self._items = []
+        for x in it:
+            self.add(x)
+
+    def add(self, x):
+        if x not in self._items:
+            self._items.append(x)
+
+    def update(self, it):
+        for x in it:
+            self.add(x)
+
+    def discard(self, x):
+        if x in self._items:
+            self._items.remove(x)
+
+    def remove(self, x):
+        self._items.remove(x)
+
+    def __contains__(self, x):
+        return x in self._items
+
+    def __len__(self):
+        return len(self._items)
+
+    def __iter__(self):
+        key = None
+        if self._items and all(isinstance(x, str) for x in self._items):
+            key = lambda x: x  # noqa: E731
+        elif self._items and all(isinstance(getattr(x, "name", None), str) for x in self._items):
+            key = lambda x: x.name  # noqa: E731
+        if key is None:
+            return iter(list(self._items))
+        return iter(sorted(self._items, key=key, reverse=_OrderedSet.reverse))
+
+    def __sub__(self, o):
+        return _EnvSet(x for x in self._items if x not in o)
+
+    def __or__(self, o):
+        return _EnvSet(list(self._items) + list(o))
+
+    def __and__(self, o):
+        return _EnvSet(x for x in self._items if x in o)
+
+    def __eq__(self, o):
+        return len(self) == len(o) and all(x in o for x in self._items)
+
+    def __bool__(self):
+        return bool(self._items)
+
+
 class EnvInt(int):
     """concrete replay: an integer that came from the environment (keeps the taint through Random(seed))."""
 
@@ -223,6 +280,7 @@ def install_env(k):
         if not stubs.CONCRETE:
             m.int = pysym.sym_int
     sim_mod.set = _SETSHADOW
+    jobs_mod.set = _EnvSet
     _OrderedSet.reverse = bool(k)
     jobs_mod.np = _NpProxy()
     if not stubs.CONCRETE:
@@ -254,6 +312,10 @@ def worlds(tier):
     for seed in ((0,) if tier == "quick" else (0, 1, 42)):
         ws.append(w.W(f"poisson-arrivals-policy-given-the-seed-EDF-seed{seed}", [], w.C1, "EDF", seed=seed, split=6, weight=10,
                       jobgraph={"variance": [0, 0], "n": 1, "poisson": 2, "concrete_runtimes": True, "pass_seed": True, "concrete_start": True}))
+    ws.append(w.W("fork-via-jobgraph-siblings-tie-1cpu-EDF-seed42", [], w.C1, "EDF", seed=42, split=6, weight=10, jobgraph={"variance": [0, 0], "n": 3, "fork": True, "concrete_runtimes": True}))
+    for kind in ("gamma", "fixed_gamma"):
+        ws.append(w.W(f"{kind}-arrivals-policy-given-the-seed-EDF-seed1", [], w.C1, "EDF", seed=1, split=6, weight=10,
+                      jobgraph={"variance": [0, 0], "n": 1, "poisson": 2, "concrete_runtimes": True, "pass_seed": True, "concrete_start": True, "policy_kind": kind}))
     # the real entry point (main.main) on one of the repository's profiles, under each log-file mode
     for mode in ("write", "append"):
         ws.append({"name": f"entry-point-main-EDF-log_file_mode-{mode}-seed7", "entry": {"argv": ["--execution_mode=yaml", "--workload_profile_path={REPO}/profiles/workload/edf_adversarial.yaml",
@@ -275,13 +337,22 @@ def build_from_jobgraph(env, spec):
         jobs.append(Job(name=f"J{i}", profile=prof))
     if jg_spec.get("poisson"):
         start = EventTime(5 if jg_spec.get("concrete_start") else env.int("start", 0, 2 ** 20), US)
-        if jg_spec.get("pass_seed"):
+        kind = jg_spec.get("policy_kind", "poisson")
+        if jg_spec.get("pass_seed") and kind == "gamma":
+            pol = JobGraph.ReleasePolicy.gamma(rate=0.01, coefficient=2.0, num_invocations=jg_spec["poisson"], start=start, rng_seed=spec["seed"])
+        elif jg_spec.get("pass_seed") and kind == "fixed_gamma":
+            pol = JobGraph.ReleasePolicy.fixed_gamma(variable_arrival_rate=0.01, base_arrival_rate=0.01, coefficient=2.0, num_invocations=jg_spec["poisson"] + 1, start=start, rng_seed=spec["seed"])
+        elif jg_spec.get("pass_seed"):
             pol = JobGraph.ReleasePolicy.poisson(rate=0.01, num_invocations=jg_spec["poisson"], start=start, rng_seed=spec["seed"])
         else:
             pol = JobGraph.ReleasePolicy.poisson(rate=0.01, num_invocations=jg_spec["poisson"], start=start)
     else:
         pol = JobGraph.ReleasePolicy.fixed(period=EventTime(env.int("period", 1, 2 ** 20), US), num_invocations=2, start=EventTime(env.int("start", 0, 2 ** 20), US))
-    jg = JobGraph(name="JG", jobs={jobs[i]: ([jobs[i + 1]] if i + 1 < n else []) for i in range(n)}, release_policy=pol, deadline_variance=tuple(jg_spec["variance"]))
+    if jg_spec.get("fork"):  # J0 -> {J1, J2}: the order of the siblings decides ties
+        edges = {jobs[0]: [jobs[1], jobs[2]], jobs[1]: [], jobs[2]: []}
+    else:
+        edges = {jobs[i]: ([jobs[i + 1]] if i + 1 < n else []) for i in range(n)}
+    jg = JobGraph(name="JG", jobs=edges, release_policy=pol, deadline_variance=tuple(jg_spec["variance"]))
     wl = Workload.from_job_graphs({"JG": jg})
     wl.populate_task_graphs(EventTime(2 ** 40, US))
     return wl
